@@ -5,8 +5,8 @@ aliases) -> real npm resolver over a LocalClient with the install-tree hook (bui
 NpmModel!NpmViolations (edge satisfaction, completeness, reachability, fresh-install pick rule, one name per directory,
 Node lookup lands on the edge target) on every recorded (universe, graph, tree).
 Second source of universes: NpmResolve.tla models the resolver itself (depth-first stack, walk up the install tree, reuse and
-slot protection, pick rule, hoisting as high as the tree allows) as a state machine for universes without aliases and
-bundles; TLC NpmResolveMC explores it on EVERY universe of a small family, checks one-name-per-directory at every step and
+slot protection, pick rule, hoisting as high as the tree allows) as a state machine for universes without
+bundles (aliases are modelled); TLC NpmResolveMC explores it on EVERY universe of a small family, checks one-name-per-directory at every step and
 every clause of C06 on every (graph, tree) the MODEL returns, and emits each universe with the model's graph and tree; the real
 resolver is run on all of them, judged by the same clauses, and compared with the model (information)."""
 import json, os, random, time
